@@ -33,7 +33,6 @@ import (
 	genericfilters "k8s.io/apiserver/pkg/server/filters"
 	"k8s.io/client-go/kubernetes/scheme"
 
-	gatewayapp "github.com/kubewharf/kubegateway/cmd/kube-gateway/app"
 	proxyv1alpha1 "github.com/kubewharf/kubegateway/pkg/apis/proxy/v1alpha1"
 	"github.com/kubewharf/kubegateway/pkg/clusters"
 	proxyoptions "github.com/kubewharf/kubegateway/pkg/gateway/proxy/options"
@@ -288,7 +287,7 @@ func newGateway() (*gateway, error) {
 		return nil, fmt.Errorf("the shipped wiring built no authorizer")
 	}
 	notFound := http.HandlerFunc(func(w http.ResponseWriter, r *http.Request) { w.WriteHeader(http.StatusTeapot) })
-	handler := gatewayapp.VerifBuildProxyHandlerChain(manager, notFound, cfg)
+	handler := buildChain(manager, notFound, cfg)
 	g.gwSrv = httptest.NewServer(handler)
 	return g, nil
 }
